@@ -37,8 +37,10 @@ def gen_method(rng, which):
             ops.append(["stmt", ["assign", "w", None, ["call", "<builtin>array", [["c", 3]], []], []]])
             ops.append(["stmt", ["assign", "w", ["v", "i"], ["+", [["v", "i"], ["v", "a"]]], [["i", ["c", 0], ["c", 3]]]]])
             ops.append(["stmt", ["assign", "t1", None, ["+", [["v", "t1"], ["sub", ["v", "w"], ["c", 1]]]], []]])
-        elif r < 0.8:
+        elif r < 0.72:
             ops.append(["stmt", ["call", ["a", "t1"], "<func>h", [["v", "t1"]], []]])
+        elif r < 0.8:
+            ops.append(["stmt", ["call", ["a"], "<func>g", [["v", "t1"]], [["y", ["v", "a"]]]]])
         else:
             ops.append(["stmt", ["assign", own_p, None, ["+", [["v", "a"], ["v", "<t>"]]], []]])
     ops.append(["stmt", ["assign", own_s, None, ["+", [["v", own_s], ["v", "t1"]]], []]])
